@@ -31,12 +31,18 @@ class SchedInterp(FinamInterp):
         if isinstance(fv, Sym) and fv.op == "update":
             self.updates.append(fv.args[0].obj)
             return None
+        if isinstance(fv, Sym) and fv.op == "iface_with_delay":
+            return Sym(fv.args[0].obj.fields["_dname"], args[0])
         if isinstance(fv, Closure) and getattr(fv.func, "name", "") == "with_delay":
             o = fv.self_obj
             idx = self.delay_ids.setdefault(id(o), len(self.delay_ids))
             name = o.fields.get("_dname", f"d{idx}")
             return Sym(name, args[0])
         return super().call_hook(fv, args, kwargs, node, mod)
+
+
+# adapters of third parties that implement the public interfaces directly
+IFACE_ONLY = {"<interface-only delay adapter>": {"ITimeDelayAdapter"}, "<interface-only no-dependency delay adapter>": {"ITimeDelayAdapter", "NoDependencyAdapter"}}
 
 
 # ------------------------------------------------------------------ topology
@@ -83,7 +89,7 @@ class Topo:
 
     def _real_link(self, src, tgt):
         from .absbase import FinamInterp
-        if src is None:
+        if src is None or src.cls is None:
             return
         f = self.repo.resolve(src.cls, "chain", "method")
         if f is None:
@@ -117,6 +123,20 @@ class Topo:
         for cname in adapters:
             if isinstance(cname, Obj):
                 a = cname
+                elems.append(a)
+                src = a
+                continue
+            if cname in IFACE_ONLY:
+                # a third-party adapter that implements only the interfaces (no SDK base class)
+                self._n_elem = getattr(self, "_n_elem", 0) + 1
+                a = Obj(cls=None, label=f"{cname}#{self._n_elem}", markers={"IAdapter", "IInput", "IOutput"} | IFACE_ONLY[cname])
+                a.fields.update(source=src, targets=[], name=a.label, is_static=False, time=None, needs_push=False, needs_pull=False)
+                if "ITimeDelayAdapter" in a.markers:
+                    a.fields["_dname"] = f"d{self._n_delay}"
+                    self._n_delay += 1
+                    a.fields["with_delay"] = Sym("iface_with_delay", Ref(a))
+                if src is not None:
+                    src.fields["targets"].append(a)
                 elems.append(a)
                 src = a
                 continue
